@@ -391,4 +391,3 @@ func srcEntry(e string, rnd *mrand.Rand) string {
 	}
 	panic("unknown source-address entry " + e)
 }
-
